@@ -114,7 +114,7 @@ func runC08(c *Case, large bool) {
 		return
 	}
 	defer ts.Close()
-	set := &transferSet{ts: ts}
+	set := &transferSet{ts: ts, x: c.X}
 	var post []func()
 	defer func() {
 		if !set.waitAll() {
